@@ -7,6 +7,9 @@
 //   g <nv> {id name mass}*nv <ne> {a b}*ne   nodes inserted in this order, edges in this order
 //   dist <start>       exploreGraph with GraphDistVisitor        -> dist id:d ... | expl id ... | nolabel id ...
 //   bfs <start>        exploreGraph with Graph_BF_Visitor        -> expl id ...
+//   prelabel <v> <d>   give node v an int attribute "Dist" = d on the CURRENT graph object
+//   hdist <start>      exploreGraph with GraphDistVisitor on the CURRENT graph object itself (no copy):
+//                      a history of sweeps over one Graph                 -> same output as dist
 //   single <start>     singleNetwork with Graph_BF_Visitor (start -1: getVertices().at(0))
 //   decouple           decoupleIsolatedSubGraphs                  -> ncomp k / comp v.. | a-b ..
 //   reduce             reduceGraph + expandGraph                  -> nchain k / chain v v .. / expv .. / expe a-b ..
@@ -120,6 +123,38 @@ int main() {
         if (!in) throw std::runtime_error("driver: malformed g command");
         G.reset(new Graph(edges, nodes));
         std::cout << "ok nv " << G->getVertices().size() << " ne " << G->getEdges().size() << std::endl;
+      } else if (cmd == "prelabel") {
+        Index v, d;
+        in >> v >> d;
+        GraphNode gn = G->getNode(v);
+        std::unordered_map<std::string, Index> iv;
+        iv["Dist"] = d;
+        gn.setInt(iv);
+        G->setNode(v, gn);
+        std::cout << "ok" << std::endl;
+      } else if (cmd == "hdist") {
+        Index start;
+        in >> start;
+        GraphDistVisitor gv;
+        gv.setStartingVertex(start);
+        exploreGraph(*G, gv);
+        std::set<Index> expl = gv.getExploredVertices();
+        std::cout << "dist";
+        std::vector<Index> nolabel;
+        for (auto &p : G->getNodes()) {
+          GraphNode gn = p.second;
+          try {
+            Index d = gn.getInt("Dist");
+            std::cout << " " << p.first << ":" << d;
+          } catch (const std::invalid_argument &) {
+            nolabel.push_back(p.first);
+          }
+        }
+        std::cout << " | expl";
+        for (Index v : expl) std::cout << " " << v;
+        std::cout << " | nolabel";
+        for (Index v : nolabel) std::cout << " " << v;
+        std::cout << std::endl;
       } else if (cmd == "dist" || cmd == "bfs") {
         Index start;
         in >> start;
